@@ -1,4 +1,5 @@
 import BreezyVerif.Lemmas.C51Plan2
+import BreezyVerif.Lemmas.C51T
 /-!
 C51 — theorems.  All parent maps (any size, with ghosts), all onto / stop
 revisions, all topological orders `topo_sort` may return, any `generate_revid`.
@@ -314,7 +315,111 @@ theorem transpose_excludes_renames_partial (ancestry : List (Key × Option (List
       obtain ⟨rv, hrv, heq⟩ := List.mem_map.mp hm
       exact he.2 rv hrv heq
 
+/-- `transpose_no_stale_parent`: for every ancestry (any size, ghosts, merges reached several times through
+different rewritten parents), every set of renames with distinct keys and every `generate_revid`, provided the
+replacement ids (rename targets, generated ids) are fresh — not revisions of the ancestry, not renamed revisions —
+and whatever the fuel: in the plan `generate_transpose_plan` returns, a rewritten revision never keeps as a parent
+an OLD revision that is itself replaced (renamed, or rewritten by this plan) unless that revision's replacement
+`nw` (its rename target, else its generated id) is among the parents as well.  With parents that are listed once
+this says: every replaced parent has been substituted.  (Worklist invariant `TInv`, Lemmas/C51T.) -/
+theorem transpose_no_stale_parent (ancestry : List (Key × Option (List Key))) (renames : List (Key × Key))
+    (g : PMap) (gen : Key → Key) (fuel : Nat) (plan : Plan)
+    (hk : (rks renames).Nodup)
+    (hfresh : ∀ k, nw renames gen k ∉ tNodes ancestry renames)
+    (h : transposePlan ancestry renames g gen fuel = .ok plan) :
+    ∀ e ∈ plan, ∀ p ∈ e.parents, (p ∈ rks renames ∨ p ∈ plan.map (·.old)) → nw renames gen p ∈ e.parents := by
+  unfold transposePlan at h
+  simp only at h
+  split at h
+  · cases h
+  · rename_i rm0 hinit
+    split at h
+    · cases h
+    · rename_i rm hloop
+      simp only [Except.ok.injEq] at h
+      subst h
+      obtain ⟨hi1, hi2⟩ := tInit_spec (tParents ancestry g (renames.map (·.2))) renames [] rm0 hinit
+      -- rename targets are fresh
+      have htargets : ∀ c ∈ tNodes ancestry renames, c ∉ renames.map (·.2) := by
+        intro c hc hm
+        obtain ⟨rv, hrv, hcv⟩ := List.mem_map.mp hm
+        have := hfresh rv.1
+        rw [nw_rk hk hrv, hcv] at this
+        exact this hc
+      have hcons : ∀ c ∈ tNodes ancestry renames, ∀ ps, tParents ancestry g (renames.map (·.2)) c = some ps → ∀ q ∈ ps,
+          ∃ cs, childrenIn ancestry q = some cs ∧ c ∈ cs :=
+        fun c hc ps hps q hq => tParents_children (htargets c hc) hps hq
+      have hinv0 : TInv ancestry (tParents ancestry g (renames.map (·.2))) gen renames [] [] rm0 (renames.map (·.1)) := by
+        have hrv : ∀ e ∈ rm0, ∃ rv ∈ renames, e.old = rv.1 ∧ e.new = rv.2 := by
+          intro e he
+          rcases hi1 e he with h1 | h1
+          · cases h1
+          · exact h1
+        refine ⟨?_, ?_, ?_, ?_, ?_, ?_, ?_, ?_⟩
+        · intro e he
+          obtain ⟨rv, hrv', h1, h2⟩ := hrv e he
+          rw [h1, h2, nw_rk hk hrv']
+        · intro e he
+          obtain ⟨rv, hrv', h1, _⟩ := hrv e he
+          exact Or.inr (List.mem_map.mpr ⟨rv, hrv', h1.symm⟩)
+        · intro e he hne
+          obtain ⟨rv, hrv', h1, _⟩ := hrv e he
+          exact absurd (List.mem_map.mpr ⟨rv, hrv', h1.symm⟩) hne
+        · intro r hr; cases hr
+        · intro r hr; cases hr
+        · intro r hr
+          unfold tNodes
+          exact List.mem_append_right _ hr
+        · intro e he hne
+          obtain ⟨rv, hrv', h1, _⟩ := hrv e he
+          exact absurd (List.mem_map.mpr ⟨rv, hrv', h1.symm⟩) hne
+        · intro k hk'
+          exact hi2 k (Or.inr hk')
+      obtain ⟨Pf, hf⟩ := tLoop_inv ancestry _ gen renames hfresh hcons fuel rm0 _ [] rm hinv0 hloop
+      intro e he p hp hrep
+      simp only [List.mem_filter, Bool.not_eq_true', List.any_eq_false, beq_iff_eq] at he
+      have hene : e.old ∉ rks renames := by
+        intro hm
+        obtain ⟨rv, hrv, h1⟩ := List.mem_map.mp hm
+        exact he.2 rv hrv h1
+      have hpin : p ∈ rm.map (·.old) := by
+        rcases hrep with h1 | h1
+        · exact hf.rk p h1
+        · obtain ⟨e', he', h2⟩ := List.mem_map.mp h1
+          exact List.mem_map.mpr ⟨e', (List.mem_filter.mp he').1, h2⟩
+      obtain ⟨e', he', h2⟩ := List.mem_map.mp hpin
+      have hpP : p ∈ Pf := by
+        rcases hf.queued e' he' with h3 | h3
+        · exact h2 ▸ h3
+        · cases h3
+      exact hf.closed e he.1 hene p hpP hp
+
+/-- the triangle `4 = merge(1, 3)`, `3 ← 2 ← 1`, with `1` renamed to `9`: the merge is reached twice (through `1` and
+through its rewritten second parent `3`) and ends with BOTH parents substituted; the hypotheses of
+`transpose_no_stale_parent` hold on this input -/
+theorem transpose_triangle_witness :
+    (transposePlan [(4, some [1, 3]), (3, some [2]), (2, some [1]), (1, some [0]), (0, some [])] [(1, 9)] [(9, [0])]
+        (· + 100) 50).toOption = some [⟨4, 104, [9, 103]⟩, ⟨2, 102, [9]⟩, ⟨3, 103, [102]⟩] ∧
+    (rks [(1, 9)]).Nodup ∧
+    (tNodes [(4, some [1, 3]), (3, some [2]), (2, some [1]), (1, some [0]), (0, some [])] [(1, 9)]).all (· < 9) = true := by
+  decide
+
 /-! ### non-vacuity -/
+
+/-- the freshness hypothesis of `transpose_no_stale_parent` on the triangle: nodes are below 9, replacement ids are 9 or ≥ 100 -/
+example : ∀ k, nw [(1, 9)] (· + 100) k ∉
+    tNodes [(4, some [1, 3]), (3, some [2]), (2, some [1]), (1, some [0]), (0, some [])] [(1, 9)] := by
+  intro k hm
+  have h9 : ∀ x ∈ tNodes [(4, some [1, 3]), (3, some [2]), (2, some [1]), (1, some [0]), (0, some [])] [(1, 9)], x < 9 := by
+    decide
+  have hlt := h9 _ hm
+  unfold nw at hlt
+  by_cases hk : k = 1
+  · subst hk; simp at hlt
+  · have : ((1 : Nat) == k) = false := by simpa using fun e : 1 = k => hk e.symm
+    simp only [List.find?_cons, this, List.find?_nil] at hlt
+    exact Nat.not_lt.mpr (Nat.le_trans (by decide : 9 ≤ 100) (Nat.le_add_left 100 k)) hlt
+
 
 example : [4, 5, 6].Nodup ∧ (∀ s, some 6 = some s → [4, 5, 6].getLast? = some s) ∧
     ((some 6 : Option Key) = none ∨ some 6 = some 6) := by decide
